@@ -58,6 +58,25 @@ CLAIMED = {
         design='5 / C06',
         note=TB + 'Axioms: standard-library real-number axioms as printed. Float overflow is outside the model (oracle tests isfinite).',
         technique='Coq case-analysis proofs over R + vm_compute correspondence + boundary-temperature oracle'),
+    'C07': dict(
+        text='Machine-checked proof (Coq, reals): H=(H/RT)*T*R, S=(S/R)*R, Cp=(Cp/R)*R, G=H-T*S, values in two units differ by the ratio of '
+             'the two gas constants, the elemental offset is the sum of tabulated entropies over the atom list (order-free) and shifts S/R '
+             'down and G/RT up by exactly that sum; for all estimates, units, temperatures. Tie: correspondence over exact rationals and a '
+             'direct oracle over all 16 unit strings pmutt accepts, generated molecules decomposed immediately before the estimate, atom '
+             'lists taken independently from RDKit, cross-unit ratios against SI definitions.',
+        design='5 / C07',
+        note=TB + 'Axioms: standard-library real-number axioms as printed. pmutt R(u) and S_elements tables are externals read at run time.',
+        technique='Coq ring/field proofs over R + vm_compute correspondence + unit-sweep oracle'),
+    'C20': dict(
+        text='Machine-checked proof (Coq, reals): SE^2 = RMSE^2 * x\'Mx with x placed in basis order, SE=|RMSE|*sqrt(x\'Mx) for a non-negative '
+             'form, SE>=0, scaling all counts by k scales SE by |k| (bilinearity of the form, placement commutes with scaling), mapping order '
+             'does not matter (distinct keys), an out-of-basis descriptor is an error; for all count vectors, matrices and temperatures. '
+             'Tie: correspondence over exact rationals per library (basis and matrix exported from the loaded library) and a direct oracle on '
+             'unit vectors, random, scaled, permuted and out-of-basis mappings for shipped and synthetic libraries.',
+        design='5 / C20',
+        note=TB + 'Axioms: standard-library real-number axioms as printed. sqrt and the RMSE correlation are taken from the implementation; '
+             'PSD of the shipped matrices belongs to C14.',
+        technique='Coq proofs over R (bilinear form, permutation of placements) + vm_compute correspondence + oracle'),
 }
 
 PENDING_REASON = 'check not built yet in this round (design in DESIGN.md section 5); not claimed until it runs'
